@@ -186,7 +186,7 @@ func runC39(p *kit.Program, r *kit.Report) {
 	r.Rule("C39.R3", "local request ids come from one agent-global counter; the counter is advanced, read and the pending entry registered inside one write-lock region, and the counter is never written outside that lock")
 	cx := c16NewCtx(p)
 	var fwd, pend *c16Eval
-	for _, ev := range c16ResolveTables(p, r) {
+	for _, ev := range c16ResolveTablesQuiet(p) {
 		if ev.T.Prop != "C39" {
 			continue
 		}
